@@ -24,6 +24,8 @@ import (
 // Whole-proof ops (decl-keyproof, kp-verify, kp-alter, kp-build-verify, kp-challenge) run the real
 // ValidKeyProofStructure; their verdict is checked against the by-construction label (the Lean
 // side answers with the specification verdict `spec`, the composed tree is not modelled).
+// Structure ops (kp-structure, kp-structure-full, kp-substructure; c17b.go) compare the wiring of the
+// real structure values with the Lean model of the constructors (GabiModel/KeyProofTree.lean).
 // Component ops (sf-*, ppp-*, dpp-*, aspp-*, qspp-verify, repr-*, range-verify, expstep-verify)
 // run the unexported component through keyproof/verif_export_c17.go and the Lean component model.
 
@@ -1005,6 +1007,8 @@ func genC17(g *Rng, tier string, emit func(Op)) {
 	genC17Repr(g, thorough, emit)
 	genC17Range(g, thorough, emit)
 	genC17ExpStep(g, thorough, emit)
+	genC17Tree(g, thorough, emit)     // c17b.go: the wiring of the composed proof tree
+	genC17GroupExp(g, thorough, emit) // c17c.go: Exp helpers leave their arguments alone
 	if os.Getenv("VERIF_C17_SKIP_WHOLE") == "" {
 		genC17Whole(g, thorough, emit)
 	}
@@ -1680,6 +1684,10 @@ func genC17Whole(g *Rng, thorough bool, emit func(Op)) {
 		cls := fmt.Sprintf("key-%d-bases-%d", pl.bits, pl.nbases)
 		emit(Op{"op": "decl-keyproof", "class": "decl", "id": id, "n": hx(key.n), "bases": hxs(bases), "proof": json.RawMessage(raw)})
 		emit(Op{"op": "kp-verify", "class": "honest-" + cls, "label": "accept", "spec": "accept", "id": id})
+		// the structure this proof was built with and is verified with is the modelled one
+		emit(kpStructureOp("structure-of-proved-"+cls, key.n, bases))
+		// one structure value used for several proofs / groups (c17c.go)
+		genC17Reuse(g, thorough, emit, id, cls, key, &s, &proof)
 
 		// the Fiat-Shamir input
 		names, segs, ok := s.VerifChallengeSegments(proof)
